@@ -1,30 +1,345 @@
 import Fabio.Driver.Proto
 import Fabio.Driver.RouteJson
 import Fabio.Model.Route
+import Fabio.Model.Parse
+import Fabio.Model.C05Spec
+/-!
+Driver handlers for C05. `agree` compares the model (`Model/Route.lean`, `Model/Parse.lean`) with the real code;
+`spec` evaluates the property's sentences on the implementation's own output: the table must be the one the
+*spec machine* (`Model/C05Spec.lean`) prescribes for the commands, repeated adds and re-cased hosts must not
+change it, no empty route or host may remain, and the rendered text must rebuild the table.
+-/
 namespace Fabio.Driver.C05
-open Lean Fabio.Driver Fabio.Driver.RouteJson Fabio.Model.Route
+open Lean Fabio.Driver Fabio.Driver.RouteJson Fabio.Model.Route Fabio.Model.Parse Fabio.Model.C05Spec
 
 def errName : Err → String
   | .invalidPrefix => "invalidPrefix" | .invalidTarget => "invalidTarget" | .badURL => "badURL"
   | .badGlob => "badGlob" | .noMatch => "noMatch" | .invalidCommand => "invalidCommand"
 
+def synName : SynErr → String
+  | .routeExpected => "routeExpected" | .addInvalid => "addInvalid" | .delInvalid => "delInvalid"
+  | .weightInvalid => "weightInvalid" | .weightValue => "weightValue"
+
 def defsOf (inp : Json) : Except String (List RouteDef) := do
   let a ← inp.getObjValAs? (Array Json) "defs"
   a.toList.mapM routeDef
 
-/-- the oracle travels in the input but is recomputed by the harness on replay; the driver reads it from
-the *implementation line* when present there, else from the input -/
+def objOr (j : Json) (k : String) : Json := (j.getObjVal? k).toOption.getD (Json.mkObj [])
+
+/-- the oracle travels on the implementation line (recomputed on replay), else in the input -/
+def oracleOf (inp impl : Json) : Json :=
+  match impl.getObjVal? "oracle" with
+  | .ok o => o
+  | .error _ => objOr inp "oracle"
+
+def pfOf (o : Json) : ParseFloat :=
+  let p := objOr o "pf"
+  fun s => match p.getObjVal? (String.ofList s) with
+    | .ok (.str "nan") => some .nan
+    | .ok (.str "inf") => some .posInf
+    | .ok (.str "-inf") => some .negInf
+    | .ok (.str r) => (parseRat r).map .fin
+    | _ => none
+
+/-! ### model outputs in the harness's canonical shape -/
+
+def parseErrJson : ParseErr → Json
+  | .syn l e => Json.mkObj [("kind", "syn"), ("line", l), ("what", synName e)]
+  | .tooLong l => Json.mkObj [("kind", "tooLong"), ("line", l)]
+  | .nonFinite l _ => Json.mkObj [("kind", "nonFinite"), ("line", l)]
+
+def loadErrJson : LoadErr → Json
+  | .parse e => parseErrJson e
+  | .table e => Json.mkObj [("kind", "table"), ("what", errName e)]
+
+def loadJson : Except LoadErr Table → Json
+  | .error e => Json.mkObj [("error", loadErrJson e)]
+  | .ok t => Json.mkObj [("table", tableJson t)]
+
+def loadTag : Except LoadErr Table → String
+  | .error (.parse (.syn _ e)) => "err-" ++ synName e
+  | .error (.parse (.tooLong _)) => "err-tooLong"
+  | .error (.parse (.nonFinite _ _)) => "outside-nonfinite-weight"
+  | .error (.table e) => "err-" ++ errName e
+  | .ok t => if t.isEmpty then "empty" else "table"
+
+/-! ### decoding the implementation's dump -/
+
+def targetOfJson (j : Json) : Except String Target := do
+  let tags ← strList (objOr j "tags")
+  let opts ← pairList ((j.getObjVal? "opts").toOption.getD .null)
+  let fixed ← getRat j "fixed"
+  let weight ← getRat j "weight"
+  return { service := getStrD j "service", tags, opts, url := getStrD j "url", fixedWeight := fixed, weight }
+
+def routeOfJson (j : Json) : Except String Route := do
+  let ts ← j.getObjValAs? (Array Json) "targets"
+  let ts ← ts.toList.mapM targetOfJson
+  return { host := getStrD j "host", path := getStrD j "path", targets := ts }
+
+def tableOfJson (j : Json) : Except String Table := do
+  let hs ← j.getArr?
+  hs.toList.mapM (fun h => do
+    let rs ← h.getObjValAs? (Array Json) "routes"
+    let rs ← rs.toList.mapM routeOfJson
+    return (getStrD h "host", rs))
+
+/-- the implementation's observable: `Except errorJson Table` -/
+def implTable (impl : Json) : Except String (Except Json Table) :=
+  match impl.getObjVal? "table" with
+  | .ok t => do let t ← tableOfJson t; return .ok t
+  | .error _ =>
+    match impl.getObjVal? "error" with
+    | .ok e => return .error e
+    | .error _ => throw s!"neither table nor error: {impl.compress}"
+
+/-! ### the spec machine against a dump -/
+
+def targetClose (a b : Target) : Bool :=
+  a.service == b.service && a.url == b.url && a.tags == b.tags && Fabio.Model.Parse.sortOpts a.opts == Fabio.Model.Parse.sortOpts b.opts &&
+  ratClose a.fixedWeight b.fixedWeight && ratClose a.weight b.weight
+
+def targetsClose : List Target → List Target → Bool
+  | [], [] => true
+  | a :: as, b :: bs => targetClose a b && targetsClose as bs
+  | _, _ => false
+
+def noEmptyB (t : Table) : Bool := t.all (fun kv => !kv.2.isEmpty && kv.2.all (fun r => !r.targets.isEmpty))
+
+/-- does the dump show exactly what the spec prescribes? `keys` = every (host,path) a command named -/
+def specMatches (S : Spec) (keys : List (Str × Str)) (t : Table) : Bool :=
+  noEmptyB t &&
+  t.all (fun kv => kv.2.all (fun r => r.host == kv.1 && targetsClose (S r.host r.path) r.targets)) &&
+  keys.all (fun k => (S k.1 k.2).isEmpty || (t.route k.1 k.2).isSome)
+
+def keysOf (defs : List RouteDef) : List (Str × Str) := defs.map (fun d => key d.src)
+
+/-- routes of a host are in strictly descending path order (the final sort) -/
+def sortedDescB : List Route → Bool
+  | a :: b :: rest => pathLt b.path a.path && sortedDescB (b :: rest)
+  | _ => true
+
+/-- spec verdict for "commands ↦ table": the spec machine's result vs the implementation's -/
+def specVerdict (env : Env) (defs : List RouteDef) (impl : Except Json Table) : Bool :=
+  match specRun env defs, impl with
+  | .ok S, .ok t => specMatches S (keysOf defs) t && t.all (fun kv => sortedDescB kv.2)
+  | .error e, .error j =>
+    (j.getStr?.toOption == some (errName e)) ||
+    ((j.getObjValAs? String "kind").toOption == some "table" && (j.getObjValAs? String "what").toOption == some (errName e))
+  | _, _ => false
+
+/-! ### c05.script -/
+
+def sameOutcome (a b : Json) : Bool :=
+  (a.getObjVal? "table").toOption == (b.getObjVal? "table").toOption &&
+  (a.getObjVal? "error").toOption == (b.getObjVal? "error").toOption
+
 def scriptH : Handler := fun inp impl => do
-  let defs ← defsOf inp
-  let env := envOf ((inp.getObjVal? "oracle").toOption.getD (Json.mkObj []))
-  let m : Json := match newTable env defs with
+  -- the harness echoes the definitions with the weights' exact rationals filled in (corpus and shrunk inputs
+  -- carry only the decimal text)
+  let defs ← match impl.getObjVal? "defs" with
+    | .ok _ => defsOf impl
+    | .error _ => defsOf inp
+  let env := envOf (oracleOf inp impl)
+  let res := newTable env defs
+  let m : Json := match res with
     | .error e => Json.mkObj [("error", errName e)]
     | .ok t => Json.mkObj [("table", tableJson t)]
   let agree := closeJson m impl
-  let tag := match newTable env defs with
+  let tag := match res with
     | .error e => "err-" ++ errName e
     | .ok t => if t.isEmpty then "empty" else "table"
-  return ({ model := m, agree, spec := true, nontrivial := tag == "table", tag } : Verdict).toJson
+  let it ← implTable impl
+  let okSpec := specVerdict env defs it
+  let okDup := match impl.getObjVal? "dupLast" with
+    | .ok d => sameOutcome d impl
+    | .error _ => true
+  let okCase := match impl.getObjVal? "recased" with
+    | .ok d => sameOutcome d impl
+    | .error _ => true
+  let tag := if !okSpec then tag ++ "/spec-machine" else if !okDup then tag ++ "/add-not-idempotent"
+    else if !okCase then tag ++ "/host-case-sensitive" else tag
+  return ({ model := m, agree, spec := okSpec && okDup && okCase,
+            nontrivial := (res.toOption.map (fun t => !t.isEmpty)).getD false, tag } : Verdict).toJson
 
-def streams : List (String × Handler) := [("c05.script", scriptH)]
+/-! ### c05.text -/
+
+def strOfJson (j : Json) (k : String) : Str := getStrD j k
+
+/-- mirror of the harness's `textIn.full`: insert a comment line of `long` bytes before line `longAt` -/
+def fullText (inp : Json) : Str :=
+  let text := strOfJson inp "text"
+  let long := ((inp.getObjValAs? Nat "long").toOption.getD 0)
+  if long = 0 then text else
+  let long := if long > 1048576 then 1048576 else long
+  let at_ := ((inp.getObjValAs? Int "longAt").toOption.getD 0).toNat
+  let ls := splitOn '\n' text
+  let at_ := if at_ > ls.length then ls.length else at_
+  let line : Str := '#' :: List.replicate (long - 1) 'x'
+  join ['\n'] (ls.take at_ ++ [line] ++ ls.drop at_)
+
+def textH : Handler := fun inp impl => do
+  let o := oracleOf inp impl
+  let env := envOf o
+  let pf := pfOf o
+  let text := fullText inp
+  let res := loadTable env pf text
+  let m := loadJson res
+  let tag := loadTag res
+  if tag == "outside-nonfinite-weight" then
+    -- Go accepts NaN/±Inf as a weight; tables with such weights are outside this model (see C04)
+    return ({ model := m, agree := true, spec := true, nontrivial := false, tag } : Verdict).toJson
+  let agree := closeJson m impl
+  let it ← implTable impl
+  -- spec: the parsed commands (model parser), run on the spec machine, vs the implementation's table
+  let okSpec := match parse pf text with
+    | .error e => (match it with
+        | .error j => j == parseErrJson e
+        | .ok _ => false)
+    | .ok defs => specVerdict env defs it
+  let tag := if okSpec then tag else
+    (match res with
+      | .error (.parse (.tooLong _)) => "long-line-swallowed"
+      | _ => tag ++ "/spec-machine")
+  return ({ model := m, agree, spec := okSpec, nontrivial := tag != "empty", tag } : Verdict).toJson
+
+/-! ### c05.line -/
+
+def cmdName : Cmd → String
+  | .add => "route add" | .del => "route del" | .weight => "route weight" | .other s => String.ofList s
+
+def defJson (d : RouteDef) : Json :=
+  Json.mkObj [("cmd", cmdName d.cmd), ("service", str d.service), ("src", str d.src), ("dst", str d.dst),
+    ("weight", ratJson d.weight), ("tags", Json.arr (d.tags.map str).toArray),
+    ("opts", Json.arr (d.opts.map (fun kv => Json.arr #[str kv.1, str kv.2])).toArray)]
+
+def lineTag (r : Except ParseErr (List RouteDef)) : String :=
+  match r with
+  | .error (.syn _ e) => "err-" ++ synName e
+  | .error (.tooLong _) => "err-tooLong"
+  | .error (.nonFinite _ _) => "outside-nonfinite-weight"
+  | .ok [] => "skip"
+  | .ok ds =>
+    match ds.getLast? with
+    | none => "skip"
+    | some d =>
+      match d.cmd with
+      | .add => "add" ++ (if d.weight != 0 then "+w" else "") ++ (if d.tags.isEmpty then "" else "+t") ++ (if d.opts.isEmpty then "" else "+o")
+      | .del => if !d.tags.isEmpty then (if d.service.isEmpty then "del-tags" else "del-svc-tags")
+                else if d.src.isEmpty then "del-svc" else if d.dst.isEmpty then "del-svc-src" else "del-svc-src-dst"
+      | .weight => (if d.service.isEmpty then "weight-src" else "weight-svc") ++ (if d.tags.isEmpty then "" else "+t")
+      | .other _ => "other"
+
+/-- sanity of what the real parser returned for a line: service/src/dst are `\S*` tokens, tags are trimmed and
+carry no quote or comma -/
+def implDefsSane (impl : Json) : Bool :=
+  match impl.getObjValAs? (Array Json) "defs" with
+  | .error _ => true
+  | .ok a => a.toList.all (fun d =>
+      let tokOK := fun k => (getStrD d k).all (fun c => !isReSpace c)
+      let tags := (strList (objOr d "tags")).toOption.getD []
+      tokOK "service" && tokOK "src" && tokOK "dst" &&
+      tags.all (fun t => !t.contains '"' && !t.contains ',' && trimSpace t == t))
+
+def lineH : Handler := fun inp impl => do
+  let o := oracleOf inp impl
+  let pf := pfOf o
+  let line := strOfJson inp "line"
+  let res := parse pf line
+  let tag := lineTag res
+  let m : Json := match res with
+    | .error e => Json.mkObj [("error", parseErrJson e)]
+    | .ok ds => Json.mkObj [("defs", Json.arr (ds.map defJson).toArray)]
+  if tag == "outside-nonfinite-weight" then
+    return ({ model := m, agree := true, spec := true, nontrivial := false, tag } : Verdict).toJson
+  let agree := (m.getObjVal? "defs").toOption == (impl.getObjVal? "defs").toOption &&
+               (m.getObjVal? "error").toOption == (impl.getObjVal? "error").toOption
+  return ({ model := m, agree, spec := implDefsSane impl,
+            nontrivial := tag != "skip" && tag != "err-routeExpected", tag } : Verdict).toJson
+
+/-! ### c05.roundtrip -/
+
+def clamp0 (r : Rat) : Rat := if r < 0 then 0 else r
+
+/-- `a` (before) and `b` (after the round trip): same service, URL, tags, options; weight equal to the four
+decimals the text carries (a weight ≤ 0 means "no fixed weight" and comes back as 0) -/
+def targetRT (a b : Target) : Bool :=
+  a.service == b.service && a.url == b.url && a.tags == b.tags && Fabio.Model.Parse.sortOpts a.opts == Fabio.Model.Parse.sortOpts b.opts &&
+  (let d := clamp0 a.fixedWeight - b.fixedWeight
+   (if d < 0 then -d else d) ≤ (1 : Rat) / 20000 + eps)
+
+def targetsRT : List Target → List Target → Bool
+  | [], [] => true
+  | a :: as, b :: bs => targetRT a b && targetsRT as bs
+  | _, _ => false
+
+def routesRT : List Route → List Route → Bool
+  | [], [] => true
+  | a :: as, b :: bs => a.host == b.host && a.path == b.path && targetsRT a.targets b.targets && routesRT as bs
+  | _, _ => false
+
+def tablesRT : Table → Table → Bool
+  | [], [] => true
+  | a :: as, b :: bs => a.1 == b.1 && routesRT a.2 b.2 && tablesRT as bs
+  | _, _ => false
+
+def anyTarget (t : Table) (p : Target → Bool) : Bool := t.any (fun kv => kv.2.any (fun r => r.targets.any p))
+
+def hasDupBy {α} [BEq α] (f : Target → α) (ts : List Target) : Bool :=
+  match ts with
+  | [] => false
+  | x :: xs => xs.any (fun y => f y == f x) || hasDupBy f xs
+
+/-- the property's own hypothesis fails: some route holds two targets that differ at most in weight -/
+def differOnlyInWeight (t : Table) : Bool :=
+  t.any (fun kv => kv.2.any (fun r => hasDupBy (fun x => (x.service, x.url, x.tags, Fabio.Model.Parse.sortOpts x.opts)) r.targets))
+
+def dupKeyB (t : Table) : Bool :=
+  t.any (fun kv => kv.2.any (fun r => hasDupBy (fun x => (x.service, x.url, (norm4 x).fixedWeight, x.tags)) r.targets))
+
+def needsEscape (s : Str) : Bool := s.any (fun c => c == '\\' || c == '"' || c.toNat < 0x20 || c.toNat == 0x7f)
+
+def roundtripH : Handler := fun _inp impl => do
+  let o := oracleOf _inp impl
+  let env := envOf o
+  let pf := pfOf o
+  let t1j := objOr impl "t"
+  match t1j.getObjVal? "table" with
+  | .error _ =>
+    return ({ model := Json.null, agree := true, spec := true, nontrivial := false, tag := "source-rejected" } : Verdict).toJson
+  | .ok tj =>
+  let t ← tableOfJson tj
+  let text := strOfJson impl "text"
+  let rendered := render t
+  let okRender := rendered == text
+  let res2 := loadTable env pf text
+  let m2 := loadJson res2
+  let i2 := objOr impl "t2"
+  let okLoad := closeJson m2 i2
+  let it2 ← implTable i2
+  let rtOK := match it2 with
+    | .ok t2 => tablesRT t t2
+    | .error _ => false
+  let urlStable := (impl.getObjValAs? Bool "urlStable").toOption.getD true
+  let zero := anyTarget t (fun x => x.weight ≤ 0)
+  let emptyTag := anyTarget t (fun x => !x.tags.isEmpty && (join [','] x.tags).isEmpty)
+  let esc := anyTarget t (fun x => x.tags.any needsEscape)
+  let rounded := anyTarget t (fun x => 0 < x.fixedWeight && round4Rat x.fixedWeight != x.fixedWeight)
+  let neg := anyTarget t (fun x => x.fixedWeight < 0)
+  let (spec, tag) :=
+    if rtOK then (true, "rebuilt" ++ (if rounded then "+rounded" else "") ++ (if neg then "+neg" else ""))
+    else if differOnlyInWeight t then (true, "outside-two-targets-differ-only-in-weight")
+    else if zero then (false, "zero-weight-not-rendered")
+    else if emptyTag then (false, "single-empty-tag")
+    else if dupKeyB t then (false, "dup-key-after-render")
+    else if !urlStable then (false, "url-unstable")
+    else if esc then (false, "tag-needs-escaping")
+    else (false, "roundtrip-mismatch")
+  let nontrivial := anyTarget t (fun x => !x.tags.isEmpty || !x.opts.isEmpty || 0 < x.fixedWeight) &&
+    t.any (fun kv => kv.2.length > 1 || kv.2.any (fun r => r.targets.length > 1))
+  let tag := if !okRender then tag ++ "/render-differs" else if !okLoad then tag ++ "/reload-differs" else tag
+  return ({ model := Json.mkObj [("text", str rendered), ("t2", m2)], agree := okRender && okLoad, spec, nontrivial, tag } : Verdict).toJson
+
+def streams : List (String × Handler) :=
+  [("c05.script", scriptH), ("c05.text", textH), ("c05.line", lineH), ("c05.roundtrip", roundtripH)]
 end Fabio.Driver.C05
